@@ -52,7 +52,7 @@ def make_recording(ns, ew, vt, dt, degrees_from_north=0.0, meta=None):
     # with the orientation (and the metadata) given by position, the others by keyword (decided from the first sample, so
     # that a replayed case makes the same choice)
     first = np.asarray(ns, dtype=float).ravel()[:1]
-    pick = int(abs(first[0]) * 1e6) % 3 if first.size and np.isfinite(first[0]) else 0
+    pick = int((abs(first[0]) % 1.0) * 1e6) % 3 if first.size and np.isfinite(first[0]) else 0
     if pick == 1:
         return hvsrpy.SeismicRecording3C(hvsrpy.TimeSeries(ns, dt), hvsrpy.TimeSeries(ew, dt), hvsrpy.TimeSeries(vt, dt),
                                          degrees_from_north, meta)
@@ -182,8 +182,15 @@ def as_stored(arrays):
                         for a in arrays)
 
 
-def reform(rng, x):
-    """The same values in another array form; returns (value, form name)."""
+def reform(rng, x, arrays_only=False):
+    """The same values in another array form; returns (value, form name).  arrays_only: ndarray forms only (for
+    parameters documented as ndarray rather than as iterable)."""
+    if arrays_only:
+        for _ in range(8):
+            v, name = reform(rng, x)
+            if isinstance(v, np.ndarray):
+                return v, name
+        return x, "as-given"
     a = np.asarray(x)
     if a.dtype != np.float64 or a.size == 0 or a.ndim not in (1, 2):
         return x, "as-given"
